@@ -199,8 +199,17 @@ fn any_rec_step() -> ScheduleStep {
 crate::harness! {
     #[kani::unwind(6)]
     fn c01_replay_fidelity_3() {
-        let t0 = mk_task(0);
-        let t1 = mk_task(1);
+        let mut t0 = mk_task(0);
+        let mut t1 = mk_task(1);
+        // a task on the offered list is either runnable or blocked with permission to wake up spuriously (parked):
+        // the recording scheduler may have picked it in that state, so replay has to accept it
+        if kani::any() {
+            t0.block(true);
+        }
+        if kani::any() {
+            t1.block(true);
+            kani::cover!(true, "a parked task is on the offered list");
+        }
         let mut steps = Vec::with_capacity(3);
         let s0 = any_rec_step();
         let s1 = any_rec_step();
@@ -248,8 +257,14 @@ crate::harness! {
 crate::harness! {
     #[kani::unwind(7)]
     fn c01_replay_fidelity_4() {
-        let t0 = mk_task(0);
-        let t1 = mk_task(1);
+        let mut t0 = mk_task(0);
+        let mut t1 = mk_task(1);
+        if kani::any() {
+            t0.block(true);
+        }
+        if kani::any() {
+            t1.block(true);
+        }
         let mut steps = Vec::with_capacity(4);
         let s0 = any_rec_step();
         let s1 = any_rec_step();
@@ -417,6 +432,133 @@ crate::harness! {
 // ---- C01(d): the data seed reported for *any* execution reproduces that execution's data stream ----------
 // (concrete construction seeds: PCG's 128-bit arithmetic on a symbolic seed does not finish)
 
+// ---- C01 (recording side, draws): every shuttle::rand draw is recorded as exactly one Random marker, in position,
+// and is served by exactly one call of the scheduler's data source ------------------------------------------------
+
+#[derive(Debug)]
+struct DrawSched {
+    base: u64,
+    n: u64,
+}
+impl Scheduler for DrawSched {
+    fn new_execution(&mut self) -> Option<Schedule> {
+        None
+    }
+    fn next_task(&mut self, r: &[&Task], _c: Option<TaskId>, _y: bool) -> Option<TaskId> {
+        Some(r[0].id())
+    }
+    fn next_u64(&mut self) -> u64 {
+        let v = self.base.wrapping_add(self.n);
+        self.n += 1;
+        v
+    }
+}
+
+fn recording_of_draws<const K: usize, const N: usize>() {
+    use shuttle_engine::runtime::execution::{CurrentSchedule, ExecutionState};
+    use shuttle_engine::Config;
+    use std::cell::RefCell;
+    use std::rc::Rc;
+    let seed: u64 = kani::any();
+    let base: u64 = kani::any();
+    // K steps already recorded (task steps and draws alike), then N draws
+    let mut pre = Schedule::new(seed);
+    let pre_random0: bool = kani::any();
+    let pre_random1: bool = kani::any();
+    if K >= 1 {
+        if pre_random0 { pre.push_random() } else { pre.push_task(TaskId::from(0)) }
+    }
+    if K >= 2 {
+        if pre_random1 { pre.push_random() } else { pre.push_task(TaskId::from(1)) }
+    }
+    ExecutionState::verif_init_schedule(pre);
+    let sched: Rc<RefCell<dyn Scheduler>> = Rc::new(RefCell::new(DrawSched { base, n: 0 }));
+    let st = RefCell::new(ExecutionState::verif_new(Config::new(), sched));
+    let mut d = [0u64; 2];
+    ExecutionState::verif_enter(&st, || {
+        if N >= 1 {
+            d[0] = ExecutionState::next_u64();
+        }
+        if N >= 2 {
+            d[1] = ExecutionState::next_u64();
+        }
+    });
+    let rec = CurrentSchedule::get_schedule();
+    assert!(rec.seed == seed, "C01: recording changed the schedule's seed");
+    assert!(rec.steps.len() == K + N, "C01: a random draw was not recorded as exactly one step");
+    if K >= 1 {
+        assert!(rec.steps[0] == if pre_random0 { ScheduleStep::Random } else { ScheduleStep::Task(TaskId::from(0)) },
+            "C01: recording a draw disturbed an earlier step");
+    }
+    if K >= 2 {
+        assert!(rec.steps[1] == if pre_random1 { ScheduleStep::Random } else { ScheduleStep::Task(TaskId::from(1)) },
+            "C01: recording a draw disturbed an earlier step");
+    }
+    if N >= 1 {
+        assert!(rec.steps[K] == ScheduleStep::Random, "C01: a random draw was not recorded as a Random marker in position");
+        assert!(d[0] == base, "C01: a draw was not served by exactly one call of the scheduler's data source");
+    }
+    if N >= 2 {
+        assert!(rec.steps[K + 1] == ScheduleStep::Random, "C01: a random draw was not recorded as a Random marker in position");
+        assert!(d[1] == base.wrapping_add(1), "C01: a draw was not served by exactly one call of the scheduler's data source");
+    }
+    kani::cover!(K == 0 || pre_random0, "an earlier draw or no earlier step");
+    std::mem::forget(rec);
+    std::mem::forget(st);
+}
+
+crate::harness! {
+    #[kani::unwind(6)]
+    fn c01_recording_of_draws_0_1() { recording_of_draws::<0, 1>(); }
+}
+crate::harness! {
+    #[kani::unwind(6)]
+    fn c01_recording_of_draws_2_2() { recording_of_draws::<2, 2>(); }
+}
+crate::harness! {
+    #[kani::unwind(6)]
+    fn c01_recording_of_draws_1_0() { recording_of_draws::<1, 0>(); }
+}
+
+// ---- C13: reset_step_count() restarts the count at zero ---------------------------------------------------------
+
+crate::harness! {
+    #[kani::unwind(8)]
+    fn c13_reset_then_bound() {
+        use shuttle_engine::runtime::execution::ExecutionState;
+        use shuttle_engine::Config;
+        use std::cell::RefCell;
+        use std::rc::Rc;
+        // k steps recorded before the reset, m steps after it (task steps and random draws alike)
+        let k: usize = (kani::any::<u8>() % 4) as usize;
+        let m: usize = (kani::any::<u8>() % 4) as usize;
+        let mut pre = Schedule::new(0);
+        let mut i = 0;
+        while i < k {
+            if kani::any() { pre.push_task(TaskId::from(0)) } else { pre.push_random() }
+            i += 1;
+        }
+        ExecutionState::verif_init_schedule(pre);
+        let sched: Rc<RefCell<dyn Scheduler>> = Rc::new(RefCell::new(crate::env::NullSched));
+        let st = RefCell::new(ExecutionState::verif_new(Config::new(), sched));
+        ExecutionState::verif_enter(&st, || shuttle_engine::current::reset_step_count());
+        // the recorded schedule grows by m steps
+        let mut post = Schedule::new(0);
+        let mut i = 0;
+        while i < k + m {
+            if kani::any() { post.push_task(TaskId::from(0)) } else { post.push_random() }
+            i += 1;
+        }
+        ExecutionState::verif_init_schedule(post);
+        let bound: usize = kani::any();
+        let got = st.borrow().verif_is_step_bound_exceeded(bound);
+        assert!(got == (m >= bound), "C13: after reset_step_count the bound must trip exactly when the steps since the reset reach it");
+        kani::cover!(got && k == 2 && m == 3 && bound == 3, "bound reached exactly after a reset");
+        kani::cover!(!got && k == 1 && m == 2 && bound == 3, "one below the bound after a reset");
+        std::mem::forget(st);
+    }
+}
+
 fn data_seed_reproduces(s0: u64) {
     let mut a = RandomDataSource::initialize(s0);
     let r1 = a.reinitialize();
@@ -523,6 +665,71 @@ crate::harness! {
     }
 }
 
+// ---- C08: the portfolio stop-flag wrapper is transparent until the flag is set, then ends execution and run ------
+
+crate::harness! {
+    #[kani::unwind(4)]
+    fn c08_portfolio_stop_wrapper() {
+        use std::sync::atomic::{AtomicBool, Ordering};
+        use std::sync::Arc;
+        let t0 = mk_task(0);
+        let t2 = mk_task(2);
+        let exec_some: bool = kani::any();
+        let draw_val: u64 = kani::any();
+        unsafe { SPY = SpyRec { n: 0, first: 9, last: 9, cur: None, y: false, ret: None, asked: 0, draws: 0, execs: 0 } };
+        let stop = Arc::new(AtomicBool::new(false));
+        let mut m = shuttle_engine::runtime::runner::verif_portfolio_stoppable(Spy { draw_val, exec_some }, stop.clone());
+        // the flag may be raised (by another portfolio member) before the execution starts, before the decision, or never
+        let stop_before_exec: bool = kani::any();
+        let stop_before_decision: bool = kani::any();
+        if stop_before_exec {
+            stop.store(true, Ordering::SeqCst);
+        }
+        let e = m.new_execution();
+        if stop_before_exec {
+            assert!(e.is_none() && unsafe { SPY.execs } == 0, "C08: a stopped portfolio member started another execution");
+        } else {
+            assert!(e.is_some() == exec_some && unsafe { SPY.execs } == 1, "C08: portfolio wrapper changed new_execution");
+        }
+        std::mem::forget(e);
+        if stop_before_decision {
+            stop.store(true, Ordering::SeqCst);
+        }
+        let stopped = stop_before_exec || stop_before_decision;
+        let two: bool = kani::any();
+        let cur_some: bool = kani::any();
+        let cur_id: usize = kani::any();
+        kani::assume(cur_id <= 2);
+        let cur = if cur_some { Some(TaskId::from(cur_id)) } else { None };
+        let y: bool = kani::any();
+        let got = if two {
+            let r: [&Task; 2] = [&t0, &t2];
+            m.next_task(&r, cur, y)
+        } else {
+            let r: [&Task; 1] = [&t2];
+            m.next_task(&r, cur, y)
+        };
+        let rec = unsafe { SPY };
+        if stopped {
+            assert!(got.is_none() && rec.asked == 0, "C08: a stopped portfolio member kept scheduling");
+        } else {
+            assert!(rec.asked == 1, "C08: portfolio wrapper did not ask the inner scheduler exactly once");
+            assert!(rec.n == if two { 2 } else { 1 } && rec.first == if two { 0 } else { 2 } && rec.last == 2,
+                "C08: portfolio wrapper changed the task list");
+            assert!(rec.cur == cur.map(|x| x.into()) && rec.y == y, "C08: portfolio wrapper changed current / is_yielding");
+            assert!(got.map(|x| -> usize { x.into() }) == rec.ret, "C08: portfolio wrapper changed the scheduler's answer");
+        }
+        let d = m.next_u64();
+        assert!(d == draw_val && unsafe { SPY.draws } == 1, "C08: portfolio wrapper changed a random draw");
+        kani::cover!(stopped && got.is_none(), "stop flag ends the execution");
+        kani::cover!(!stopped && two && got.is_some(), "two tasks offered, not stopped");
+        std::mem::forget(m);
+        std::mem::forget(stop);
+        std::mem::forget(t0);
+        std::mem::forget(t2);
+    }
+}
+
 // ---- C01: replay never substitutes a different task for a recorded one that is not runnable -------------------
 
 crate::harness! {
@@ -581,5 +788,132 @@ crate::harness! {
         kani::cover!(bounded && k == 0, "zero budget");
         kani::cover!(!bounded, "unbounded");
         std::mem::forget(s);
+    }
+}
+
+// ---- C10: RandomScheduler is seed-deterministic and every reported per-iteration seed reproduces that iteration ---
+// Construction seeds are concrete (PCG's 128-bit multiply on a symbolic seed does not finish); what the solver
+// ranges over is the operation history: which iteration is reproduced, and for every iteration which operations
+// (data draw, decision among 1, 2 or 3 offered tasks) were performed before the seed for the next one is drawn.
+
+fn c10_op(s: &mut shuttle_schedulers::RandomScheduler, ts: &[&Task; 3], kind: u8) -> u64 {
+    let r = match kind {
+        0 => return s.next_u64(),
+        1 => s.next_task(&ts[..1], None, false),
+        2 => s.next_task(&ts[..2], None, false),
+        _ => s.next_task(&ts[..3], None, false),
+    };
+    match r {
+        Some(t) => usize::from(t) as u64,
+        None => 99,
+    }
+}
+
+fn any_kind() -> u8 {
+    let k: u8 = kani::any();
+    k & 3
+}
+
+fn random_seed_reproduces<const ITER: usize>(s0: u64) {
+    use shuttle_schedulers::RandomScheduler;
+    let t0 = mk_task(0);
+    let t1 = mk_task(1);
+    let t2 = mk_task(2);
+    let ts = [&t0, &t1, &t2];
+    let mut a = RandomScheduler::new_from_seed(s0, ITER);
+    let target: usize = 1 + (kani::any::<u8>() as usize) % ITER;
+    let mut seed = 0u64;
+    let mut k = [0u8; 2];
+    let mut got = [0u64; 2];
+    let mut it = 1usize;
+    while it <= ITER {
+        let e = a.new_execution();
+        assert!(e.is_some(), "C10: iteration budget ended early");
+        let sd = e.as_ref().unwrap().seed;
+        if it == 1 {
+            assert!(sd == s0, "C10: first iteration does not report the construction seed");
+        }
+        std::mem::forget(e);
+        let k0 = any_kind();
+        let k1 = any_kind();
+        let g0 = c10_op(&mut a, &ts, k0);
+        let g1 = c10_op(&mut a, &ts, k1);
+        if k0 != 0 { assert!(g0 < k0 as u64, "C10: random scheduler chose a task that was not offered"); }
+        if k1 != 0 { assert!(g1 < k1 as u64, "C10: random scheduler chose a task that was not offered"); }
+        if it == target {
+            seed = sd;
+            k = [k0, k1];
+            got = [g0, g1];
+        }
+        it += 1;
+    }
+    assert!(a.new_execution().is_none(), "C10: random scheduler exceeds its iteration budget");
+    // what check_random_with_seed(seed, 1) builds
+    let mut b = RandomScheduler::new_from_seed(seed, 1);
+    let eb = b.new_execution();
+    assert!(eb.is_some() && eb.as_ref().unwrap().seed == seed, "C10: re-created scheduler reports a different seed");
+    std::mem::forget(eb);
+    let h0 = c10_op(&mut b, &ts, k[0]);
+    let h1 = c10_op(&mut b, &ts, k[1]);
+    assert!(
+        h0 == got[0] && h1 == got[1],
+        "C10: the seed reported for an iteration does not reproduce that iteration's decisions and data draws"
+    );
+    assert!(b.new_execution().is_none(), "C10: single-iteration scheduler runs a second iteration");
+    kani::cover!(target == ITER && k[0] == 3 && k[1] == 0, "last iteration reproduced, mixed operations");
+    kani::cover!(target == 1 && k[0] == 2, "first iteration reproduced");
+    std::mem::forget(a);
+    std::mem::forget(b);
+    std::mem::forget(t0);
+    std::mem::forget(t1);
+    std::mem::forget(t2);
+}
+
+crate::harness! {
+    #[kani::stub(std::env::var, crate::stubs::env_var_unset)]
+    #[kani::unwind(12)]
+    fn c10_random_seed_reproduces_2() {
+        random_seed_reproduces::<2>(0x1234_5678);
+    }
+}
+crate::harness! {
+    #[kani::stub(std::env::var, crate::stubs::env_var_unset)]
+    #[kani::unwind(12)]
+    fn c10_random_seed_reproduces_3() {
+        random_seed_reproduces::<3>(0x1234_5678);
+    }
+}
+crate::harness! {
+    #[kani::stub(std::env::var, crate::stubs::env_var_unset)]
+    #[kani::unwind(12)]
+    fn c10_probe_seed1() { random_seed_reproduces::<2>(1); }
+}
+crate::harness! {
+    #[kani::stub(std::env::var, crate::stubs::env_var_unset)]
+    #[kani::unwind(12)]
+    fn c10_probe_seed42() { random_seed_reproduces::<2>(42); }
+}
+crate::harness! {
+    #[kani::stub(std::env::var, crate::stubs::env_var_unset)]
+    #[kani::unwind(12)]
+    fn c10_probe_seed7() { random_seed_reproduces::<2>(7); }
+}
+crate::harness! {
+    #[kani::stub(std::env::var, crate::stubs::env_var_unset)]
+    #[kani::unwind(12)]
+    fn c10_probe_seedbeef() { random_seed_reproduces::<2>(0xdead_beef); }
+}
+crate::harness! {
+    #[kani::stub(std::env::var, crate::stubs::env_var_unset)]
+    #[kani::unwind(12)]
+    fn c10_random_seed_reproduces_2_seed0() {
+        random_seed_reproduces::<2>(0);
+    }
+}
+crate::harness! {
+    #[kani::stub(std::env::var, crate::stubs::env_var_unset)]
+    #[kani::unwind(12)]
+    fn c10_random_seed_reproduces_2_seedmax() {
+        random_seed_reproduces::<2>(u64::MAX);
     }
 }
